@@ -16,6 +16,7 @@ import (
 	cbackoff "github.com/cenkalti/backoff/v4"
 	"verifsim/harness/core"
 	"verifsim/simrt"
+	"verifsim/simrt/stime"
 )
 
 // recBackoff is a recording deterministic BackOff.
@@ -183,10 +184,16 @@ func (w *world) instance(rid int, ctx context.Context, st int) (err error) {
 	case 1:
 		core.YieldN("routinex.inst", k)
 		return uerr
-	case 2, 3, 4: // run until cancelled, then return after k more steps
+	case 2, 3, 4: // run until cancelled, then return after k more steps or after some simulated time
 		simrt.Recv1("routinex.inst-run", ctx.Done())
 		c.S.Count("probe:instance-cancelled")
-		core.YieldN("routinex.inst-late", k)
+		if !w.single && c.S.PlanP(250) {
+			// exit latency in simulated time: overlaps with retry timers and later calls
+			c.S.Count("probe:instance-slow-exit-simtime")
+			stime.Sleep([]time.Duration{10 * time.Millisecond, 120 * time.Millisecond, 300 * time.Millisecond}[c.S.Plan(3)])
+		} else {
+			core.YieldN("routinex.inst-late", k)
+		}
 		return ctx.Err()
 	case 5: // deaf to cancellation until the driver opens the gate
 		g := make(chan struct{})
@@ -539,15 +546,19 @@ func runConcurrent(c *core.Ctx) {
 	// final drain: clear the context; afterwards no instance may be live and every instance returns
 	w.clearContext()
 	w.ctxTag = 0
-	for i := 0; i < 50; i++ {
+	for i := 0; i < 80; i++ {
 		c.S.Quiesce()
-		if len(w.gates) == 0 {
+		if len(w.gates) == 0 && c.S.PendingTimers() == 0 {
 			break
 		}
 		for _, g := range w.gates {
 			close(g)
 		}
 		w.gates = nil
+		// let simulated time pass: instances that take simulated time to exit, stale timers
+		if at, ok := c.S.NextTimerAt(); ok {
+			c.S.Advance(at - c.S.Now())
+		}
 	}
 	if c.Failed() {
 		return
